@@ -69,7 +69,19 @@ class Esc:
             par = pm.get(id(cur))
             if par is None:
                 break
-            if isinstance(par, ast.Try) and any(cur is s for s in par.body):
+            if isinstance(par, ast.Try) and any(cur is s for s in par.body) and getattr(self, '_exc_class', None) is not None:
+                # the exception travelling is of a KNOWN class of the program: the first handler whose type it is an instance of takes it
+                hit = None
+                for h in par.handlers:
+                    if self._handler_takes(f, h, self._exc_class):
+                        hit = h
+                        break
+                if hit is not None:
+                    if not self._just_reraises(hit):
+                        sink = self.sink_of_handler(f, hit)
+                        if sink != 'converted-and-reraised':
+                            return Container(f, 'except', hit, sink if is_catch_all(hit) else f'typed-handler:{sink}')
+            elif isinstance(par, ast.Try) and any(cur is s for s in par.body):
                 for h in par.handlers:
                     if is_catch_all(h):
                         if self._just_reraises(h):
@@ -88,6 +100,19 @@ class Esc:
                 break
             cur = par
         return None
+
+    def _handler_takes(self, f: FuncInfo, h: ast.ExceptHandler, exc: ClassInfo) -> bool:
+        if h.type is None:
+            return True
+        ext = {b.split('.')[-1] for b in exc.mro() if isinstance(b, str)}
+        for t in (h.type.elts if isinstance(h.type, ast.Tuple) else [h.type]):
+            k = self.prog.resolve_class(f.module, t)
+            if k is not None:
+                if exc is k or exc.is_subclass_of(k):
+                    return True
+            elif norm(t).split('.')[-1] in ext:
+                return True
+        return False
 
     @staticmethod
     def _just_reraises(h: ast.ExceptHandler) -> bool:
@@ -241,6 +266,14 @@ class Esc:
         return []
 
     # ------------------------------------------------------------------ tracing
+    def trace_class(self, f: FuncInfo, node: ast.AST, exc: ClassInfo, max_depth: int = 14) -> List[Outcome]:
+        """``trace`` for an exception of the known class ``exc`` (typed handlers that take it contain it; ``except Exception`` does not take a BaseException)."""
+        self._exc_class = exc
+        try:
+            return self.trace(f, node, max_depth)
+        finally:
+            self._exc_class = None
+
     def trace(self, f: FuncInfo, node: ast.AST, max_depth: int = 14, stop=None, containers: bool = True) -> List[Outcome]:
         """Follow the synchronous call chains upwards from ``node`` in ``f``.  ``stop(f, node, via)`` may end a chain with
         outcome kind 'stopped' (used by the scope-reachability rule); ``containers=False`` ignores exception handlers."""
